@@ -120,7 +120,7 @@ def _cli(cmd, text, timeout_s):
         os.unlink(fn)
 
 
-def discharge(ob, timeout_ms, seed=0):
+def discharge(ob, timeout_ms, seed=0, fallbacks=True):
     """-> (status, solver, ms, model|None) ; status in discharged|sat|unknown"""
     t0 = time.time()
     s = z3.Solver()
@@ -139,6 +139,8 @@ def discharge(ob, timeout_ms, seed=0):
         return "discharged", "z3-5.1(api)", ms, None
     if r == z3.sat:
         return "sat", "z3-5.1(api)", ms, s.model()
+    if not fallbacks:
+        return "unknown", "z3-5.1(api)", ms, None
     # fall back to CLIs
     text = _smt2(ob.assumptions, ob.goal)
     tsec = max(1, timeout_ms // 1000)
@@ -196,7 +198,7 @@ def minimise_model(ob, P, timeout_ms):
 
 # --------------------------------------------------------------------------- worker
 def _run_contract(args):
-    prop, cname, tier, seed, timeout_ms = args
+    prop, cname, tier, seed, timeout_ms, shard = args
     t0 = time.time()
     res = {"contract": cname, "prop": prop, "obligations": [], "unsupported": [], "paths": 0, "error": None,
            "covers": {}, "functions": {}, "solver_ms": {}, "stats": {}}
@@ -211,24 +213,36 @@ def _run_contract(args):
                 res["functions"][spec] = func_hash(node)
             except KeyError as e:
                 res["unsupported"].append(("anchor", str(e)))
-        ex = Explorer(index, max_paths=c.max_paths or (20000 if tier == "quick" else 100000))
+        ex = Explorer(index, max_paths=c.max_paths or (20000 if tier == "quick" else 100000), shard=shard)
         results = ex.run(c.driver)
         res["paths"] = len(results)
         res["covers"] = dict(ex.covers)
         res["stats"] = dict(ex.stats)
         res["unsupported"].extend([(str(a), b) for a, b in ex.unsupported])
         nob = 0
+        failing = {}
         for P, status in results:
             for ob in P.obligations:
                 nob += 1
-                st, solver, ms, model = discharge(ob, timeout_ms, seed)
+                trouble = failing.get(ob.name, 0)
+                st, solver, ms, model = discharge(ob, timeout_ms if trouble < 3 else min(timeout_ms, 2000), seed, fallbacks=trouble < 3)
+                if st != "discharged":
+                    failing[ob.name] = trouble + 1
+                if st in ("unknown", "sat-nomodel") and trouble < 3:
+                    # bounded counter-model search (small sequence lengths): a model found here is a genuine counterexample
+                    try:
+                        m3 = minimise_model(ob, P, min(timeout_ms, 4000))
+                    except Exception:  # noqa: BLE001
+                        m3 = None
+                    if m3 is not None:
+                        st, solver, model = "sat", "z3-5.1(api,bounded-lengths)", m3
                 res["solver_ms"][solver] = res["solver_ms"].get(solver, 0) + ms
                 rec = {"name": ob.name, "path": P.path_id, "status": st, "solver": solver, "ms": ms,
                        "n_assumptions": len(ob.assumptions), "meta": {k: str(v) for k, v in ob.meta.items()}}
                 if st == "sat":
                     m2 = None
                     try:
-                        m2 = minimise_model(ob, P, min(timeout_ms, 3000))
+                        m2 = minimise_model(ob, P, min(timeout_ms, 3000)) if trouble < 3 and "bounded-lengths" not in solver else None
                     except Exception:  # noqa: BLE001
                         m2 = None
                     use = m2 or model
@@ -272,7 +286,23 @@ def load_known(prop):
     if not p.exists():
         return []
     data = json.loads(p.read_text())
-    return [k for k in data.get("findings", []) if k.get("property") == prop and k.get("status") == "known"]
+    out = [k for k in data.get("findings", []) if k.get("property") == prop and k.get("status") == "known"]
+    for k in out:
+        if k.get("inputs_file"):
+            f = VERIF / k["inputs_file"]
+            k["signatures"] = set(f.read_text().splitlines()) if f.exists() else set()
+    return out
+
+
+def match_known(known, sig, root_causes=None, allow_class=False):
+    for k in known:
+        if sig is not None and (k.get("signature") == sig or sig in k.get("signatures", ())):
+            return k
+    if allow_class and root_causes:
+        for k in known:
+            if k.get("root_cause") in root_causes:
+                return k
+    return None
 
 
 def run_property(prop, tier="quick", seed=0, only=None, extra=None):
@@ -282,7 +312,13 @@ def run_property(prop, tier="quick", seed=0, only=None, extra=None):
     importlib.import_module(f"contracts.{prop}")
     contracts = [c for c in api.REGISTRY.get(prop, []) if only is None or c.name in only]
     timeout_ms = 8000 if tier == "quick" else 60000
-    tasks = [(prop, c.name, tier, seed, timeout_ms) for c in contracts if c.tier == "P"]
+    tasks = []
+    for c in contracts:
+        if c.tier != "P":
+            continue
+        D = getattr(c, "shard_bits", 0)
+        for k in range(2 ** D):
+            tasks.append((prop, c.name, tier, seed, timeout_ms, (k, D)))
     nproc = min(16, max(1, len(tasks)))
     results = []
     if tasks:
@@ -309,6 +345,7 @@ def run_property(prop, tier="quick", seed=0, only=None, extra=None):
     fn_hashes = {}
     solver_ms = {}
     by_name = {}
+    floor_names, path_counts, had_error = {}, {}, {}
     for r in results:
         fn_hashes.update(r["functions"])
         for k, v in r["solver_ms"].items():
@@ -318,7 +355,7 @@ def run_property(prop, tier="quick", seed=0, only=None, extra=None):
         for u in r["unsupported"]:
             undecided.append((r["contract"], f"{u[0]}: {u[1]}"))
         c = next(c for c in contracts if c.name == r["contract"])
-        names = set()
+        names = floor_names.setdefault(r["contract"], set())
         for ob in r["obligations"]:
             n_ob += 1
             full = f"{prop}.{r['contract']}.{ob['name']}"
@@ -332,10 +369,16 @@ def run_property(prop, tier="quick", seed=0, only=None, extra=None):
                 violations.append((c, r, ob, full))
             else:
                 undecided.append((r["contract"], f"{ob['name']} path {ob['path']}: {ob['status']}"))
-        if len(names) < c.floor and not r["error"]:
-            undecided.append((r["contract"], f"only {len(names)} distinct obligations generated (< floor {c.floor}): vacuity guard"))
-        if r["paths"] == 0 and not r["error"]:
-            undecided.append((r["contract"], "zero paths explored"))
+        path_counts[r["contract"]] = path_counts.get(r["contract"], 0) + r["paths"]
+        had_error[r["contract"]] = had_error.get(r["contract"], False) or bool(r["error"])
+    for c in contracts:
+        if c.tier != "P" or had_error.get(c.name):
+            continue
+        names = floor_names.get(c.name, set())
+        if len(names) < c.floor:
+            undecided.append((c.name, f"only {len(names)} distinct obligations generated (< floor {c.floor}): vacuity guard"))
+        if path_counts.get(c.name, 0) == 0:
+            undecided.append((c.name, "zero paths explored"))
     # bounded / extra checks (tier B) supplied by the property module
     bounded = []
     bviol = []
@@ -347,6 +390,7 @@ def run_property(prop, tier="quick", seed=0, only=None, extra=None):
                 bviol.append((bc, v))
     # classify violations: replay, known findings
     exit_code = 0
+    deviations = []
     lines = []
     reported = set()
     per_ob = {}
@@ -361,7 +405,7 @@ def run_property(prop, tier="quick", seed=0, only=None, extra=None):
         for k in known:
             if k.get("obligation") and not full.endswith(k["obligation"]) and k["obligation"] not in full:
                 continue
-            if rep and rep.get("signature") and k.get("signature") and rep["signature"] == k["signature"]:
+            if rep and rep.get("signature") and match_known([k], rep["signature"]):
                 kf = k
                 break
             if k.get("match_obligation_only") and (k["obligation"] in full):
@@ -379,6 +423,13 @@ def run_property(prop, tier="quick", seed=0, only=None, extra=None):
             continue
         if full in reported:
             continue
+        if ob.get("meta", {}).get("level") == "pinned" and not (rep and rep.get("reproduced")):
+            # stronger-than-the-statement obligation deviates, but the statement holds on the counterexample: not a violation
+            if full not in deviations:
+                deviations.append(full)
+                print(f"NOTE property={prop} pinned-behaviour obligation {full} no longer holds, but the property statement "
+                      f"holds on the counterexample ({(rep or {}).get('detail', 'no replay')[:300]}); see {rf}")
+            continue
         reported.add(full)
         if rep and rep.get("reproduced"):
             lines.append(f"VIOLATION property={prop} replay={rf} obligation={full}")
@@ -391,7 +442,7 @@ def run_property(prop, tier="quick", seed=0, only=None, extra=None):
         exit_code = 1
     for bc, v in bviol:
         sig = v.get("signature")
-        kf = next((k for k in known if k.get("signature") and k["signature"] == sig), None)
+        kf = match_known(known, sig, v.get("root_cause"), allow_class=bool(bc.get("class_match")))
         if kf is not None:
             known_hits.append((kf, bc["check"]))
             continue
@@ -416,7 +467,7 @@ def run_property(prop, tier="quick", seed=0, only=None, extra=None):
             if (cn, e[:200]) in seen_e:
                 continue
             seen_e.add((cn, e[:200]))
-            print(f"CHECKER-ERROR contract={cn}\n{e[:3000]}", file=sys.stderr)
+            print(f"CHECKER-ERROR contract={cn}\n{e[-3000:]}", file=sys.stderr)
         if exit_code == 0:
             exit_code = 3
     if undecided and exit_code == 0:
@@ -443,6 +494,7 @@ def run_property(prop, tier="quick", seed=0, only=None, extra=None):
             "bounded": bounded,
             "undecided": [f"{a}: {b}" for a, b in undecided][:50],
             "known_findings_hit": sorted(seen_k),
+            "pinned_deviations": deviations,
             "extraction_drops": "type annotations, docstrings, comments, logger.* calls (modelled as no-ops)",
         },
         "assumptions": getattr(mod, "ASSUMPTIONS", []),
